@@ -168,3 +168,31 @@ def run_scenario(iso, opts, title=None, keep_csv=False, save_all_results=False):
             with contextlib.suppress(OSError):
                 os.remove(f)
     return run
+
+
+def pairwise_sets(space, rng, base=None):
+    """option sets that together contain EVERY pair (value of one option, value of another option) of `space` (greedy covering array):
+    an effect that needs the interplay of two option values is exercised whatever the pair is.  `space`: {option: [values]}."""
+    keys = sorted(space)
+    need = set()
+    for i, a in enumerate(keys):
+        for b in keys[i + 1:]:
+            for va in space[a]:
+                for vb in space[b]:
+                    need.add((a, va, b, vb))
+    sets = []
+    while need:
+        best, best_cov = None, -1
+        for _ in range(30):
+            cand = {k: rng.choice(space[k]) for k in keys}
+            # seed the candidate with one still-uncovered pair so that every round makes progress
+            a, va, b, vb = rng.choice(sorted(need, key=repr)[:50]) if len(need) > 50 else rng.choice(sorted(need, key=repr))
+            cand[a], cand[b] = va, vb
+            cov = sum(1 for i, x in enumerate(keys) for y in keys[i + 1:] if (x, cand[x], y, cand[y]) in need)
+            if cov > best_cov:
+                best, best_cov = cand, cov
+        for i, x in enumerate(keys):
+            for y in keys[i + 1:]:
+                need.discard((x, best[x], y, best[y]))
+        sets.append(dict(base or {}, **best))
+    return sets
